@@ -326,7 +326,7 @@ func init() {
 
 func runC14(c *Cfg) {
 	r := c.Rep
-	n := c.Pick(8000, 150000)
+	n := c.Pick(8000, 500000)
 	parallel(c, n, func(i int) {
 		cs := genStoreCase(c, i, 200)
 		if i%5 == 4 {
